@@ -15,7 +15,7 @@ res = {}
 for sid in ids:
     d = VERIF / "seeded" / sid
     prop = json.loads((d / "meta.json").read_text())["property"]
-    subprocess.run(["git", "-C", str(repo), "checkout", "--", "."], check=True)
+    subprocess.run(["git", "-C", str(repo), "checkout", "HEAD", "--", "."], check=True)
     a = subprocess.run(["git", "-C", str(repo), "apply", "--3way", str(d / "patch.diff")], capture_output=True, text=True)
     if a.returncode != 0:
         a = subprocess.run(["git", "-C", str(repo), "apply", str(d / "patch.diff")], capture_output=True, text=True)
@@ -33,7 +33,7 @@ for sid in ids:
     else:
         res[sid] = f"CHECK-ERROR exit={p.returncode}"
     print(sid, prop, res[sid], flush=True)
-    subprocess.run(["git", "-C", str(repo), "checkout", "--", "."], check=True)
+    subprocess.run(["git", "-C", str(repo), "checkout", "HEAD", "--", "."], check=True)
     subprocess.run(["git", "-C", str(repo), "reset", "-q"], check=False)
 print(json.dumps(res, indent=1))
 print("SUMMARY caught=%d missed=%d other=%d" % (sum(v.startswith("CAUGHT") for v in res.values()), sum(v == "MISSED" for v in res.values()),
